@@ -272,13 +272,36 @@ Definition nth_obs {A} (i : nat) (l : list (list A)) : list A := nth i l [].
 
 (* what the comparison of strings found: specification agrees, boreal agrees, the fixed-offset
    class explained a difference, an ambiguous fullword regex is present, it explained a difference *)
-Record sres := { q_spec : bool; q_boreal : bool; q_fix : bool; q_amb : bool; q_amb_used : bool; q_sp : bool }.
-Definition mk_sres (sp bo fx am amu st : bool) : sres :=
+(* q_sp: 0, or the class (11, 17) of a per-string finding that explained a difference on this input
+   (such a difference may also change the verdicts of the rules that use the string) *)
+Record sres := { q_spec : bool; q_boreal : bool; q_fix : bool; q_amb : bool; q_amb_used : bool; q_sp : N }.
+Definition mk_sres (sp bo fx am amu : bool) (st : N) : sres :=
   {| q_spec := sp; q_boreal := bo; q_fix := fx; q_amb := am; q_amb_used := amu; q_sp := st |}.
-Definition sres_ok : sres := mk_sres true true false false false false.
+Definition sres_ok : sres := mk_sres true true false false false 0.
 Definition sres_and (a b : sres) : sres :=
   mk_sres (q_spec a && q_spec b) (q_boreal a && q_boreal b) (q_fix a || q_fix b) (q_amb a || q_amb b)
-          (q_amb_used a || q_amb_used b) (q_sp a || q_sp b).
+          (q_amb_used a || q_amb_used b) (N.max (q_sp a) (q_sp b)).
+
+(* ---- recorded finding 17: a regex with a bracketed class that denotes the empty set (`[^\w\W]`,
+   `[^\x00-\xff]`, `[^\w\D]`).  Nothing can match it (libyara, Spec/Regex.v); boreal's literal
+   extraction drops the class, as if it matched the empty string. *)
+Fixpoint hsub (p : hir -> bool) (h : hir) {struct h} : bool :=
+  p h ||
+  match h with
+  | HAlt l | HConcat l => existsb (hsub p) l
+  | HGroup x | HRep x _ _ => hsub p x
+  | _ => false
+  end.
+Definition empty_cls (nc : bool) (c : cls) : bool := forallb (fun b => negb (cls_mem nc c b)) (ListX.iota 0 256).
+Definition has_empty_class (s : sdecl) : bool :=
+  match s with
+  | SRegex n ci da md =>
+      hsub (fun x => match x with HClass c => empty_cls (ci || x_nocase md) c | _ => false end) (node_to_hir n)
+  | _ => false
+  end.
+
+Definition K_START_POS : N := 11.
+Definition K_EMPTY_CLASS : N := 17.
 
 (* ---- recorded finding 11 (C02/C03-start-position seen from libyara's side): boreal drops a start
    that is found from a later atom hit and is smaller than the last offset already recorded.
@@ -304,7 +327,7 @@ Fixpoint strings_check (cond : option expr) (m : bytes) (ss : list sdecl) (v : n
       sres_and (strings_check cond m rest (S v) ys bs)
       (if fullword_ambiguous s m then
         let agree := list_eqb (pair_eqb N.eqb N.eqb) y b in
-        mk_sres true true false true (negb agree) false
+        mk_sres true true false true (negb agree) 0
       else if fixed_offset_string cond v then
         let full := spec_offsets_of s m in
         let sp := sublist_of y full
@@ -313,17 +336,19 @@ Fixpoint strings_check (cond : option expr) (m : bytes) (ss : list sdecl) (v : n
         let relaxed := forallb (fun yo => existsb (fun bo => (fst yo =? fst bo)
                                   && (negb (uniq_len s m (fst yo)) || (snd yo =? snd bo))) b) y
                        && list_eqb N.eqb (map fst b) full in
-        mk_sres sp (exact || relaxed) (negb exact && relaxed) false false false
+        mk_sres sp (exact || relaxed) (negb exact && relaxed) false false 0
       else
         let exact := string_agree s m y b in
         let shape := negb exact && start_position_shape s m y b in
-        mk_sres (string_spec_ok s m y) (exact || shape) false false false shape)
+        let ec := negb exact && has_empty_class s in
+        mk_sres (string_spec_ok s m y) (exact || shape || ec) false false false
+                (if ec then K_EMPTY_CLASS else if shape then K_START_POS else 0))
   end.
 
 (* a rule that is not reported (private): its strings cannot be compared; an ambiguous one makes the
    specification's prediction of the rule's verdict unusable on this input *)
 Definition hidden_check (m : bytes) (ss : list sdecl) : sres :=
-  mk_sres true true false (existsb (fun s => fullword_ambiguous s m) ss) false false.
+  mk_sres true true false (existsb (fun s => fullword_ambiguous s m) ss) false 0.
 
 (* ------------------------------------------------------------------ verdicts by the specification *)
 Definition to_smatch (ol : N * N) : smatch := {| m_base := 0; m_off := fst ol; m_len := snd ol |}.
@@ -380,8 +405,8 @@ Definition verdicts_agree (yobs bobs : list obs) (bdef : list bool) : bool :=
   && forallb2 (fun (y : obs) (d : bool) => match y with Some (my, _) => Bool.eqb my d | None => negb d end)
               yobs bdef.
 
-Definition sres_bad : sres := mk_sres false false false false false false.
-Definition no_boreal (a : sres) : sres := mk_sres (q_spec a) false false (q_amb a) false false.
+Definition sres_bad : sres := mk_sres false false false false false 0.
+Definition no_boreal (a : sres) : sres := mk_sres (q_spec a) false false (q_amb a) false 0.
 
 Fixpoint rules_strings (m : bytes) (rs : list crule) (yobs bobs : list obs) : sres :=
   match rs, yobs, bobs with
@@ -406,7 +431,6 @@ Definition K_SELFREF : N := 2.       (* a rule that references itself: cannot be
 Definition K_LIMITS : N := 3.        (* boreal's defensive limits: never reached by the generated files *)
 Definition K_CONTAINS_EMPTY : N := 4.
 Definition K_FIXED_OFFSET : N := 10.
-Definition K_START_POS : N := 11.
 Definition K_FULLWORD_LEN : N := 12.
 Definition K_GLOBAL_REFS : N := 13.
 Definition K_LIST_UNDEF : N := 14.
@@ -452,9 +476,9 @@ Definition C07_case (rs : list crule) (ins : list bytes) (ys bs : list (list obs
   let s_ver := forallb (fun r : sres * bool * bool => snd (fst r)) rows in
   (* boreal's verdicts: a difference on an input with an ambiguous fullword regex belongs to class 12,
      on an input where a start was dropped to class 11 *)
-  let b_ver := forallb (fun r : sres * bool * bool => snd r || q_amb (fst (fst r)) || q_sp (fst (fst r))) rows in
+  let b_ver := forallb (fun r : sres * bool * bool => snd r || q_amb (fst (fst r)) || negb (q_sp (fst (fst r)) =? 0)) rows in
   let kamb := existsb (fun r : sres * bool * bool => q_amb_used (fst (fst r)) || (q_amb (fst (fst r)) && negb (snd r))) rows in
-  let ksp := existsb (fun r : sres * bool * bool => q_sp (fst (fst r))) rows in
+  let ksp := fold_right N.max 0 (map (fun r : sres * bool * bool => q_sp (fst (fst r))) rows) in
   let kc := cond_class rs in
   (* a class of the conditions explains disagreements on verdicts only *)
   let waived := negb (kc =? 0) && negb (s_ver && b_ver) in
@@ -463,7 +487,7 @@ Definition C07_case (rs : list crule) (ins : list bytes) (ys bs : list (list obs
   if waived then
     if is_documented kc then (s, b, kc) else (s, false, kc)
   else if b && kfix then (s, false, K_FIXED_OFFSET)
-  else if b && ksp then (s, false, K_START_POS)
+  else if b && negb (ksp =? 0) then (s, false, ksp)
   else if b && kamb then (s, false, K_FULLWORD_LEN)
   else (s, b, 0).
 
